@@ -192,6 +192,7 @@ Hypothesis HDir : forall n m sub, Forall Pn sub -> Pn (NDir n m sub).
 Hypothesis HLink : forall n t, Pn (NLink n t).
 Hypothesis HSpec : forall n m, Pn (NSpec n m).
 Hypothesis HSock : forall n, Pn (NSock n).
+Hypothesis HHard : forall n c m ino, Pn (NHard n c m ino).
 Fixpoint node_ind2 (nd : node) : Pn nd :=
   match nd with
   | NFile n c m => HFile n c m
@@ -204,6 +205,7 @@ Fixpoint node_ind2 (nd : node) : Pn nd :=
   | NLink n t => HLink n t
   | NSpec n m => HSpec n m
   | NSock n => HSock n
+  | NHard n c m ino => HHard n c m ino
   end.
 End NodeInd.
 
@@ -256,7 +258,7 @@ Qed.
 
 Lemma tnode_ok sel nd : forall d, NodeOK d nd (tnode sel d d nd).
 Proof.
-  induction nd as [n c m | n m sub IH | n tg | n m | n] using node_ind2; intros d.
+  induction nd as [n c m | n m sub IH | n tg | n m | n | n c m ino] using node_ind2; intros d.
   2: { (* directory *)
     cbn [tnode node_name]. destruct (sel (d ++ [n]) true) as [s ch] eqn:Es.
     set (d' := d ++ [n]).
